@@ -411,8 +411,9 @@ func TDXMetadataFromBytes(data []byte) (*TDXMetadata, error) {
 	if err != nil {
 		return nil, fmt.Errorf("could not parse TDX metadata descriptor: %v", err)
 	}
-	expected := hdr.SectionCount * SizeofTDXMetdataSection
-	remainder := uint32(len(data) - SizeofTDXMetadataDescriptor)
+	// 64-bit arithmetic: SectionCount*SizeofTDXMetdataSection must not wrap around in 32 bits.
+	expected := uint64(hdr.SectionCount) * SizeofTDXMetdataSection
+	remainder := uint64(len(data) - SizeofTDXMetadataDescriptor)
 	if expected > remainder {
 		return nil, fmt.Errorf("data too small for expected section count %d: %d < %d",
 			hdr.SectionCount, remainder, expected)
